@@ -168,11 +168,23 @@ def build(ch, client=None, max_frames=14, big_frames=False):
             if not live:
                 continue
             sid = ch.pick(live)
+            composite = ch.chance(64)
+            if composite:
+                # a stream that is given nearly all the send window it can take, and is then closed ...
+                fr.append(wire.window_update(sid, 2**31 - 1 - 65535 - ch.pick([0, 0, 1, 5000])))
             fr.append(wire.rst_stream(sid, ch.pick([0, 8, 2, 0xdead])))
             streams[sid]['state'] = 'reset'
+            if composite and ch.chance(160):
+                # ... before INITIAL_WINDOW_SIZE goes up: whether that still overflows the closed stream's window
+                # must not depend on how the bytes were chunked
+                fr.append(wire.settings([(wire.S_INITIAL_WINDOW_SIZE, ch.pick([65536, 70000, 2**31 - 1]))]))
+                sc.labels.add('window-overflow-after-close')
         elif op == 'wu':
             sid = ch.pick([0] + live)
-            fr.append(wire.window_update(sid, ch.int(1, 5000)))
+            # mostly small; sometimes up to (or just short of) what the endpoint's send window can take, so that a
+            # later INITIAL_WINDOW_SIZE increase overflows that window - also on streams that have closed by then
+            top = 2**31 - 1 - 65535
+            fr.append(wire.window_update(sid, ch.weighted([(8, ch.int(1, 5000)), (1, top), (1, top - ch.int(0, 5000))])))
         elif op == 'ping':
             fr.append(wire.ping(ch.bytes(8), ack=ch.chance(64)))
         elif op == 'prio':
@@ -192,7 +204,8 @@ def build(ch, client=None, max_frames=14, big_frames=False):
             pairs = []
             for _ in range(ch.int(0, 3)):
                 k = ch.pick([1, 3, 4, 5, 6, 2, 0x99])
-                v = {1: ch.pick([0, 100, 4096, 8192]), 3: ch.int(40, 100), 4: ch.pick([65535, 70000, 30000]),
+                v = {1: ch.pick([0, 100, 4096, 8192]), 3: ch.int(40, 100),
+                     4: ch.pick([65535, 70000, 30000, 65535, 70000, 30000, 2**31 - 1, 66000]),
                      5: ch.pick([16384, 20000, 2**24 - 1]), 6: ch.pick([1000, 65536]),
                      2: 0 if sc.client else ch.int(0, 1), 0x99: ch.u16()}[k]
                 if k not in [p[0] for p in pairs]:
